@@ -50,11 +50,13 @@ func CombineFromNextProtos(prefix string, chunks []string) (string, error) {
 	for _, chunk := range chunks {
 		// Strip that and the number
 		if strings.HasPrefix(chunk, prefix) {
-			rest := strings.TrimPrefix(chunk, prefix)
-			if len(rest) < 3 {
-				return "", fmt.Errorf("(%s) chunk is too short to contain a chunk number", op)
+			// The chunk number is at least two digits but grows past 99, so
+			// strip through the separator rather than a fixed width
+			_, payload, found := strings.Cut(strings.TrimPrefix(chunk, prefix), "-")
+			if !found {
+				return "", fmt.Errorf("(%s) chunk is missing the chunk number separator", op)
 			}
-			ret += rest[3:]
+			ret += payload
 		}
 	}
 	return ret, nil
